@@ -260,8 +260,27 @@ func (r ImportReplacer) Replace(d data.Data, cl Changelog, f *ast.File) (string,
 		pkgName = filepath.Base(r.Path)
 	}
 
+	// AddNamedImport merges the import declarations of the file into the
+	// first one. If that one had no parentheses it is given an opening
+	// one, but no position for the closing one, and go/printer then
+	// prints every comment up to the next declaration inside the merged
+	// block: comments that stood between the import declarations,
+	// including the doc comment of an 'import "C"' that is not merged.
+	// Close the block where the first declaration used to end.
+	var first *ast.GenDecl
+	var firstEnd token.Pos
+	for _, decl := range f.Decls {
+		if gen, ok := decl.(*ast.GenDecl); ok && gen.Tok == token.IMPORT && goast.FindImportSpecIn(gen, "C") == nil {
+			first, firstEnd = gen, gen.End()
+			break
+		}
+	}
+
 	if !astutil.AddNamedImport(r.Fset, f, name, r.Path) {
 		return "", nil
+	}
+	if first != nil && first.Lparen.IsValid() && !first.Rparen.IsValid() {
+		first.Rparen = firstEnd
 	}
 	return pkgName, nil
 }
